@@ -51,6 +51,15 @@ def scan() -> list[tuple[str, str, str]]:
             def visit_Call(self, node):
                 if isinstance(node.func, ast.Name) and node.func.id in ("set", "frozenset"):
                     self._site(node)
+                # other ways for the hash seed, an address or OS entropy to reach a result: the built-in hash() / id(),
+                # a generator created without a seed, the entropy sources
+                src = ast.unparse(node.func)
+                if (isinstance(node.func, ast.Name) and node.func.id in ("hash", "id")) or \
+                        (src.endswith("default_rng") and not node.args and not node.keywords) or \
+                        src.split(".")[-1] in ("SystemRandom", "urandom", "uuid4", "uuid1", "token_bytes", "getrandbits_os") or \
+                        (src.split(".")[-1] == "RandomState" and not node.args and not node.keywords) or \
+                        (src.split(".")[-1] == "seed" and not node.args and not node.keywords):
+                    self._site(node)
                 self.generic_visit(node)
 
             def visit_Set(self, node):
